@@ -91,6 +91,13 @@ func c18RandConstraint(r *rand.Rand, known []string) string {
 		return c18BadConstraints[r.Intn(len(c18BadConstraints))]
 	case k < 58:
 		return c18RandVersion(r)
+	case k < 80:
+		// the structured generator of c18_cgen.go: operators, wildcards, partial versions,
+		// hyphen ranges, pre-releases, white space variants, AND / OR combinations
+		s, _ := c18CStructured(r)
+		return s
+	case k < 83:
+		return c18CQuirks[r.Intn(len(c18CQuirks))]
 	}
 	return c18Constraints[r.Intn(len(c18Constraints))]
 }
@@ -287,6 +294,9 @@ func (*c18) Generate(r *rand.Rand, i int) any {
 		}
 		c.Cmps = append(c.Cmps, [2]string{a, b})
 	}
+	for k := 0; k < 8; k++ {
+		c.CPairs = append(c.CPairs, c18CPairGen(r))
+	}
 	return c
 }
 
@@ -362,6 +372,14 @@ func (*c18) Corpus() []any {
 	out = append(out, c18Case{File: c18File{Mode: "yaml", API: "", Charts: []c18Chart{c18Simple("a", "1.0.0")}}, Res: [][]c18Dep{{{"a", "1"}}}})
 	out = append(out, c18Case{File: c18File{Mode: "empty"}})
 	out = append(out, c18Case{File: c18File{Mode: "bad", Bad: "entries: 3\n"}})
+	// the constraint language: the quirk list and the fixed constraint shapes against the fixed version set
+	q := c18Case{File: c18File{Mode: "empty"}, CVers: c18CFixedVersions}
+	for _, l := range [][]string{c18CQuirks, c18Constraints, c18BadConstraints} {
+		for _, s := range l {
+			q.CPairs = append(q.CPairs, c18CPair{Constraint: s})
+		}
+	}
+	out = append(out, q)
 	return out
 }
 
@@ -389,6 +407,7 @@ func (*c18) Exhaustive(tier string) []any {
 			}
 		}
 	}
+	out = append(out, c18CExhaustive()...)
 	return out
 }
 
